@@ -15,8 +15,22 @@ import (
 )
 
 // perArgShape returns the shape of what a data emitter appends for one argument: the
-// variadic part of the append inside its loop over args.
+// variadic part of the append inside its loop over args. An emitter that only forwards to a
+// same-package helper with constant extra arguments (`return emit(args, 2)`) is followed
+// into the helper with those parameters bound.
 func perArgShape(f *ssa.Function) (shape, ssa.Value, bool) {
+	bind := map[*ssa.Parameter]*ssa.Const{}
+	for hop := 0; hop < 2; hop++ {
+		g, b, ok := forwardsTo(f)
+		if !ok {
+			break
+		}
+		// constants reach through a second hop only when passed on unchanged
+		for p, k := range b {
+			bind[p] = k
+		}
+		f = g
+	}
 	for _, b := range f.Blocks {
 		for _, in := range b.Instrs {
 			call, ok := in.(*ssa.Call)
@@ -32,6 +46,9 @@ func perArgShape(f *ssa.Function) (shape, ssa.Value, bool) {
 				continue
 			}
 			sh := (&shaper{}).slice(call.Call.Args[1])
+			if lanes, ok := countedLanes(call, sh, bind); ok {
+				sh = lanes
+			}
 			var src ssa.Value
 			for _, e := range sh {
 				if e.Kind == bField {
@@ -42,6 +59,133 @@ func perArgShape(f *ssa.Function) (shape, ssa.Value, bool) {
 		}
 	}
 	return nil, nil, false
+}
+
+// forwardsTo: f is `return g(p…, K…)` — one block, one static call to a function of the
+// same package whose arguments are f's own parameters or constants, result returned as is.
+func forwardsTo(f *ssa.Function) (*ssa.Function, map[*ssa.Parameter]*ssa.Const, bool) {
+	if len(f.Blocks) != 1 {
+		return nil, nil, false
+	}
+	var call *ssa.Call
+	for _, in := range f.Blocks[0].Instrs {
+		switch x := in.(type) {
+		case *ssa.Call:
+			if call != nil {
+				return nil, nil, false
+			}
+			call = x
+		case *ssa.Return:
+			if call == nil || len(x.Results) != 1 || x.Results[0] != ssa.Value(call) {
+				return nil, nil, false
+			}
+		case *ssa.DebugRef:
+		default:
+			return nil, nil, false
+		}
+	}
+	if call == nil {
+		return nil, nil, false
+	}
+	g := call.Call.StaticCallee()
+	if g == nil || g.Pkg != f.Pkg || len(g.Blocks) == 0 || len(g.Params) != len(call.Call.Args) {
+		return nil, nil, false
+	}
+	bind := map[*ssa.Parameter]*ssa.Const{}
+	for i, a := range call.Call.Args {
+		switch x := a.(type) {
+		case *ssa.Parameter:
+		case *ssa.Const:
+			bind[g.Params[i]] = x
+		default:
+			return nil, nil, false
+		}
+	}
+	return g, bind, true
+}
+
+// countedLanes recognises `for i := 0; i < W; i++ { acc = append(acc, byte(V >> (8*i))) }`
+// with W a constant (or a parameter bound to one): W lanes of V, low byte first.
+func countedLanes(app *ssa.Call, sh shape, bind map[*ssa.Parameter]*ssa.Const) (shape, bool) {
+	if len(sh) != 1 || sh[0].Kind != bField || sh[0].Shift != 0 {
+		return nil, false
+	}
+	shr, ok := sh[0].V.(*ssa.BinOp)
+	if !ok || shr.Op != token.SHR {
+		return nil, false
+	}
+	strip := func(v ssa.Value) ssa.Value {
+		for {
+			cv, ok := v.(*ssa.Convert)
+			if !ok {
+				return v
+			}
+			v = cv.X
+		}
+	}
+	var counter ssa.Value
+	switch m := strip(shr.Y).(type) {
+	case *ssa.BinOp:
+		kx, xIsK := m.X.(*ssa.Const)
+		ky, yIsK := m.Y.(*ssa.Const)
+		switch {
+		case m.Op == token.MUL && xIsK && kx.Int64() == 8:
+			counter = strip(m.Y)
+		case m.Op == token.MUL && yIsK && ky.Int64() == 8:
+			counter = strip(m.X)
+		case m.Op == token.SHL && yIsK && ky.Int64() == 3:
+			counter = strip(m.X)
+		}
+	}
+	phi, ok := counter.(*ssa.Phi)
+	if !ok || len(phi.Edges) != 2 {
+		return nil, false
+	}
+	zero, step := false, false
+	for _, e := range phi.Edges {
+		if k, ok := e.(*ssa.Const); ok && k.Int64() == 0 {
+			zero = true
+		}
+		if bo, ok := e.(*ssa.BinOp); ok && bo.Op == token.ADD && bo.X == ssa.Value(phi) {
+			if k, ok := bo.Y.(*ssa.Const); ok && k.Int64() == 1 {
+				step = true
+			}
+		}
+	}
+	if !zero || !step {
+		return nil, false
+	}
+	hb := phi.Block()
+	iff, ok := hb.Instrs[len(hb.Instrs)-1].(*ssa.If)
+	if !ok {
+		return nil, false
+	}
+	cmp, ok := iff.Cond.(*ssa.BinOp)
+	if !ok || cmp.Op != token.LSS || cmp.X != ssa.Value(phi) || !hb.Succs[0].Dominates(app.Block()) {
+		return nil, false
+	}
+	var w int64
+	switch b := strip(cmp.Y).(type) {
+	case *ssa.Const:
+		w = b.Int64()
+	case *ssa.Parameter:
+		k, ok := bind[b]
+		if !ok {
+			return nil, false
+		}
+		w = k.Int64()
+	default:
+		return nil, false
+	}
+	if w < 1 || w > 8 {
+		return nil, false
+	}
+	// the shifted value itself must not vary with the counter
+	out := shape{}
+	for k := 0; k < int(w); k++ {
+		out = append(out, bElem{Kind: bField, V: shr.X, Shift: 8 * k})
+	}
+	return out, true
 }
 
 func ruleP7(c *Ctx) {
@@ -103,6 +247,15 @@ func ruleP7(c *Ctx) {
 			}
 			if isCallTo(p.TypesInfo, call, "strings", "", "Join") && len(call.Args) == 2 {
 				if s, ok := constStr(p.TypesInfo, call.Args[1]); ok && s == "," {
+					comma = true
+				}
+			}
+			// the same separator written between elements by hand: b.WriteByte(','), b.WriteString(",")
+			if sel, ok := call.Fun.(*ast.SelectorExpr); ok && len(call.Args) == 1 && strings.HasPrefix(sel.Sel.Name, "Write") {
+				if s, ok := constStr(p.TypesInfo, call.Args[0]); ok && s == "," {
+					comma = true
+				}
+				if v, ok := constInt(p.TypesInfo, call.Args[0]); ok && v == ',' {
 					comma = true
 				}
 			}
